@@ -83,7 +83,7 @@ func CheckDeMorgan(pass *analysis.Pass) (any, error) {
 
 		var bn, bnr, bns, bnrs string
 		switch c.Parent().Node().(type) {
-		case *ast.BinaryExpr, *ast.IfStmt, *ast.ForStmt, *ast.SwitchStmt:
+		case *ast.BinaryExpr, *ast.UnaryExpr, *ast.IfStmt, *ast.ForStmt, *ast.SwitchStmt:
 			// Always add parentheses for if, for and switch. If
 			// they're unnecessary, go/printer will strip them when
 			// the whole file gets formatted.
